@@ -1,7 +1,10 @@
 SPECIFICATION FairSpec
 CONSTANTS FallbackMode = "last"
  FailFast = FALSE
+ CancelMode = "coded"
+ WaitMode = "none"
  MaxP = 2
  MaxB = 1
+ MaxDeaf = 2
 PROPERTIES SuccessIfAny CancelPrompt Terminates
 CHECK_DEADLOCK FALSE
